@@ -118,7 +118,7 @@ enum RunOut {
 
 /// run a built program from its reported entry to the end
 fn run_built<D: Store + Mk>(m: &mut Mon<D>, c: &Compiled<Mon<D>>, input: &V, max_steps: u64) -> RunOut {
-    let (r0, f0) = (m.depth(), m.frames.len());
+    let (r0, f0, v0) = (m.depth(), m.frames.len(), m.vals.len());
     let ia = match construct(m, input) {
         Ok(a) => a,
         Err(e) => return RunOut::Err(format!("construct input: {}", e)),
@@ -142,7 +142,34 @@ fn run_built<D: Store + Mk>(m: &mut Mon<D>, c: &Compiled<Mon<D>>, input: &V, max
                 n += 1;
                 break;
             }
-            Err(Fail::Err(_, e)) => return RunOut::Err(e),
+            Err(Fail::Err(_, e)) => {
+                // a failed execution is residue too: the host unwinds the stacks and carries on
+                m.refresh_top_value();
+                // innermost first: the operands pushed since a frame, then that frame
+                while m.frames.len() > f0 {
+                    let d = m.frames.last().map(|f| f.1).unwrap_or(r0).max(r0);
+                    while m.depth() > d {
+                        if m.pop_register().ok().flatten().is_none() {
+                            break;
+                        }
+                    }
+                    if m.pop_frame().ok().flatten().is_none() {
+                        break;
+                    }
+                }
+                while m.depth() > r0 {
+                    if m.pop_register().ok().flatten().is_none() {
+                        break;
+                    }
+                }
+                while m.vals.len() > v0 {
+                    if m.pop_value_stack().is_none() {
+                        break;
+                    }
+                }
+                // addresses in messages differ between objects: the class of the error is what is compared
+                return RunOut::Err(e.chars().filter(|c| !c.is_ascii_digit()).collect());
+            }
             Err(Fail::Panic(_, msg, loc)) => return RunOut::Panic(format!("{} at {}", msg, loc)),
         }
     }
@@ -197,7 +224,12 @@ fn case<D: Store + Mk>(progs: &[String], order: &[usize], input: &V, run_between
     let mut alones: Vec<AloneInfo> = vec![];
     for p in progs {
         match alone::<D>(p, input) {
-            Some(a) if matches!(a.out, RunOut::Value(..)) => alones.push(a),
+            Some(a) if matches!(a.out, RunOut::Value(..) | RunOut::Err(_)) => {
+                if matches!(a.out, RunOut::Err(_)) {
+                    acc.count("programs_failing_at_run_time_used_as_residue");
+                }
+                alones.push(a)
+            }
             _ => {
                 acc.count("program_not_clean_alone_skipped");
                 return;
@@ -346,6 +378,12 @@ pub fn run(ctx: &Ctx) -> (Acc, String, bool) {
         "x [1] ?> { { $ } <~ 2 } <~ 3 |> w",
         "\"text\" 5 :a ()",
         "$ !> { 1 }~~ |> $ ?> { 2 }~~ |> 3",
+        // a restart that belongs to the program itself, not to a nested expression
+        "$ == () ?> ^~ 5 |> $ \"text\"",
+        "$ == 3 ?> ^~ 10 |> ($ == 10 ?> ^~ 11 |> $ * 2)",
+        // fails half way through a conversion on one of the stores: residue of a failed execution
+        "(\"abcde\" <~ 1..9) ~# \"\"",
+        "\"xyz\" (\"abcde\" <~ 2..20) ~# \"\"",
     ];
     let mut cache: Vec<Vec<E>> = vec![vec![]];
     let mut small: Vec<String> = vec![];
@@ -414,7 +452,7 @@ pub fn run(ctx: &Ctx) -> (Acc, String, bool) {
 }
 
 pub const ASSUMPTIONS: &[&str] = &[
-    "a program is only put into a shared object when, built alone, it builds and runs to a value with its stacks restored (others are the business of C01/C05/C06/C07); runs are started the documented way: cursor := jump entry reported by build, input pushed on the value stack",
+    "a program is only put into a shared object when, built alone, it builds and either runs to a value with its stacks restored or fails with a run-time error (then the same class of error is expected in the shared object, the stacks are unwound through the public pops as a host would, and what the failed run left behind is part of the residue); runs are started the documented way: cursor := jump entry reported by build, input pushed on the value stack",
     "'refers only to its own pieces' is decided by comparing the rebased stream with the stream of the same source built alone: jump operands and jump targets relative to the build's own ranges, data operands by the value they read back as (an interned equal constant is accepted)",
     "expression values in results are compared by their jump entry relative to the program's first entry",
 ];
